@@ -56,6 +56,9 @@ type World struct {
 	// BackendWindow > 0: the gateway's writes to a remote desktop host block once that many bytes are unread (a
 	// host that stopped reading)
 	BackendWindow int
+	// InPreload: the first bytes of a legacy client's inbound body (the preamble) arrive in the same segment as the
+	// RDG_IN_DATA request head: net/http has read them already when the handler hijacks the connection
+	InPreload bool
 	// Flags: named events the client scripts of a scenario signal to and wait for (wait:<name> / signal:<name>)
 	Flags map[string]bool
 	// Parties / Arrived: the "barrier" script op waits until the scripts of all tunnels of the scenario reached it
@@ -216,6 +219,7 @@ type fakeRW struct {
 	Code     int
 	Body     bytes.Buffer
 	Hijacked bool
+	preload  []byte
 }
 
 func (w *fakeRW) Header() http.Header { return w.hdr }
@@ -232,7 +236,12 @@ func (w *fakeRW) Write(b []byte) (int, error) {
 }
 func (w *fakeRW) Hijack() (net.Conn, *bufio.ReadWriter, error) {
 	w.Hijacked = true
-	return w.conn, bufio.NewReadWriter(bufio.NewReader(w.conn), bufio.NewWriter(w.conn)), nil
+	var rd io.Reader = w.conn
+	if len(w.preload) > 0 {
+		// bytes of the body that arrived together with the request head sit in the reader net/http hands out
+		rd = io.MultiReader(bytes.NewReader(w.preload), w.conn)
+	}
+	return w.conn, bufio.NewReadWriter(bufio.NewReader(rd), bufio.NewWriter(w.conn)), nil
 }
 
 // HandlerRun is one HTTP request being served by the real handler in its own thread.
@@ -263,6 +272,9 @@ func (w *World) Serve(name string, h http.Handler, method string, hdr http.Heade
 		r = identity.AddToRequestCtx(id, r)
 	}
 	rw := &fakeRW{conn: srv, hdr: http.Header{}}
+	if w.InPreload && method == "RDG_IN_DATA" {
+		rw.preload = []byte("preamble")
+	}
 	hr := &HandlerRun{Name: name, Client: cl, Srv: srv, RW: rw}
 	w.Handlers = append(w.Handlers, hr)
 	vsched.Go("handler:"+name, func() {
@@ -551,6 +563,9 @@ func (w *World) OpenTunnel(kind string, h http.Handler, gw *protocol.Gateway, co
 		ic := &TunnelClient{Kind: "legacy", Conn: in.Client}
 		if !ic.ReadHTTPHead() || !strings.HasPrefix(ic.HTTPHead, "HTTP/1.1 200") {
 			return c, false
+		}
+		if w.InPreload {
+			return c, true
 		}
 		if extra.Get("X-Verif-No-Preamble") != "" {
 			// the caller ends the tunnel before the first byte on the inbound channel
